@@ -171,10 +171,13 @@ def check(P: Project, R: Report) -> None:
     ca, co = run_paths(cc.node, event_of=cev, fallible=True)
     ca.parents = A.exception_parents(P)
     R.paths += len(co.ret) + len(co.exc) + len(co.normal)
+    # the one-shot flag, by role: a variable of the enclosing function (declared nonlocal here) that the check sets to True
+    nl = {x for n_ in walk_local(cc.node) if isinstance(n_, ast.Nonlocal) for x in n_.names}
+    flags = sorted({t.id for n_ in walk_local(cc.node) if isinstance(n_, ast.Assign) and isinstance(n_.value, ast.Constant) and n_.value.value is True for t in n_.targets if isinstance(t, ast.Name) and t.id in nl})
     quiet = list(co.normal) + [s for s, _n in co.ret]
     for st in quiet:
         notes = [e for e in st.events if e.startswith("cancelnote:")]
-        cancelled = "cancellation_token.is_cancelled" in st.lits and "not cancellation_sent" in st.lits
+        cancelled = "cancellation_token.is_cancelled" in st.lits and any(f"not {fl}" in st.lits for fl in flags)
         R.ob("R4", "a triggered token never lets the check return normally", not cancelled and not notes, cc.where, f"normal exit with literals {sorted(st.lits)} events {notes}")
     raised = [(st, t, n) for st, t, n in co.exc if isinstance(n, ast.Raise)]
     R.ob("R4", "a triggered token ends the request with CancelledError", bool(raised), cc.where, "the cancellation check has no raising path")
@@ -182,7 +185,7 @@ def check(P: Project, R: Report) -> None:
         notes = [e for e in st.events if e.startswith("cancelnote:")]
         ok = tag.split(".")[-1] == "CancelledError" and len(notes) <= 1
         R.ob("R4", "cancelled path raises CancelledError after at most one notification", ok, f"{cc.module.rel}:{node.lineno}", f"raises {tag} after {notes}")
-        R.ob("R4", "cancellation is one-shot (guarded by the sent flag)", "not cancellation_sent" in st.lits or any(l.startswith("not ") and "sent" in l for l in st.lits), f"{cc.module.rel}:{node.lineno}", f"literals {sorted(st.lits)}")
+        R.ob("R4", "cancellation is one-shot (guarded by the sent flag)", bool(flags) and any(f"not {fl}" in st.lits for fl in flags), f"{cc.module.rel}:{node.lineno}", f"literals {sorted(st.lits)}; one-shot flag(s) found by role: {flags}")
     all_notes = {e for st, _t, _n in co.exc for e in st.events if e.startswith("cancelnote:")}
     R.ob("R4", "the cancelled notification names the request id on the write stream", all_notes == {f"cancelnote:{W.write_p},{id_var}"}, cc.where, f"notification calls: {sorted(all_notes)} (expected ({W.write_p},{id_var}))",
          sample=f"R4 {cc.qual}: {sorted(all_notes)} then raise CancelledError")
@@ -216,10 +219,19 @@ def check(P: Project, R: Report) -> None:
     others = sorted({c.func.id for c in walk_local(W.loop) if isinstance(c, ast.Call) and isinstance(c.func, ast.Name) and c.func.id in wait.params() and c.func.id not in (cb_param, chk_param)})
     if others:
         R.sample(f"R5 other callables invoked from the wait loop: {others}")
+    # the token parameter, by role: the wait parameter compared with the notification's `progressToken` member
     tok_param = None
-    for k, v in W.binding.items():
-        if "progress_token" in ast.unparse(v) and k != cb_param:
-            tok_param = k
+    for c_ in walk_local(W.loop):
+        if isinstance(c_, ast.Compare) and len(c_.ops) == 1 and isinstance(c_.ops[0], (ast.Eq, ast.NotEq)):
+            sides = [c_.left, c_.comparators[0]]
+            if any("'progressToken'" in ast.unparse(x) for x in sides):
+                for x in sides:
+                    if isinstance(x, ast.Name) and x.id in wait.params() and x.id in W.binding:
+                        tok_param = x.id
+    if tok_param is None:
+        for k, v in W.binding.items():
+            if "progress_token" in ast.unparse(v) and k != cb_param:
+                tok_param = k
     R.need(tok_param is not None, "anchor: progress token is not passed to the wait")
     # per-iteration analysis of the loop body with the callback as an event
     body = ast.Module(body=W.loop.body, type_ignores=[])
